@@ -480,6 +480,51 @@ TraceSvcbApi ==
                                    /\ d.pkt.an[1].rd[1] = BE16(Ev.prio) /\ d.pkt.an[1].rd[3] = want),
              <<"wire", IF d.ok THEN d.pkt.an ELSE d.why>>)
 
+(* E2E (C15, C20; sampled on real sockets): 2-3 real ServiceDiscovery peers of flavour e.flavour advertise   *)
+(* e.peers on the loopback multicast group; e.attempts[a] is a timeline of <<ms, "start", i, _>>,            *)
+(* <<ms, "snap", i, get_known_services()>>, <<ms, "remove", i, _>> (peer indices from 0).  The invariants of  *)
+(* the protocol model (Discovery.tla) are evaluated on the observed views: NeverPartial / NothingForeign at    *)
+(* every observation; Prompt, Stable and GoodbyeHonoured -- which presume an undisturbed network and a        *)
+(* scheduler that runs the library's threads within the margins -- must hold in at least one attempt.         *)
+E2EStart(tl, j) == LET ks == {k \in 1 .. Len(tl) : tl[k][2] = "start" /\ tl[k][3] = j} IN
+                   IF ks = {} THEN -1 ELSE tl[CHOOSE k \in ks : TRUE][1]
+E2ERemoved(tl) == LET ks == {k \in 1 .. Len(tl) : tl[k][2] = "remove"} IN IF ks = {} THEN -1 ELSE tl[CHOOSE k \in ks : TRUE][1]
+E2ELastStart(tl) == LET ts == {tl[k][1] : k \in {k \in 1 .. Len(tl) : tl[k][2] = "start"}} IN
+                    IF ts = {} THEN 0 ELSE CHOOSE t \in ts : \A u \in ts : u <= t
+E2ESnaps(tl) == {k \in 1 .. Len(tl) : tl[k][2] = "snap"}
+
+TraceE2E ==
+  /\ Ev.ev = "E2E"
+  /\ LET P == [j \in 1 .. Len(Ev.peers) |-> CHOOSE x \in ReportedSet(<<Ev.peers[j]>>) : TRUE]
+         n == Len(Ev.peers)
+         gone == Ev.remove
+         Exact(tl) == \A k \in E2ESnaps(tl) :
+                        LET rep == ReportedSet(tl[k][4]) IN
+                        /\ Len(tl[k][4]) = Cardinality(rep)
+                        /\ \A x \in rep : \E j \in 0 .. n - 1 :
+                              j # tl[k][3] /\ E2EStart(tl, j) >= 0 /\ E2EStart(tl, j) <= tl[k][1] /\ x = P[j + 1]
+         Prompt(tl) == \A k \in E2ESnaps(tl) :
+                        (tl[k][1] >= E2ELastStart(tl) + 2000 /\ (E2ERemoved(tl) < 0 \/ tl[k][1] < E2ERemoved(tl)))
+                          => \A j \in 0 .. n - 1 : j # tl[k][3] => P[j + 1] \in ReportedSet(tl[k][4])
+         Stable(tl) == \A k \in E2ESnaps(tl) :
+                        (E2ERemoved(tl) >= 0 /\ tl[k][1] >= E2ERemoved(tl) /\ tl[k][3] # gone)
+                          => \A j \in 0 .. n - 1 : (j # tl[k][3] /\ j # gone) => P[j + 1] \in ReportedSet(tl[k][4])
+         Goodbye(tl) == \A k \in E2ESnaps(tl) :
+                        (E2ERemoved(tl) >= 0 /\ tl[k][1] >= E2ERemoved(tl) + 3000 /\ tl[k][3] # gone)
+                          => P[gone + 1] \notin ReportedSet(tl[k][4])
+         A == Ev.attempts IN
+     /\ Rule(l, "NoPanic", Ev.panics = <<>> /\ \A a \in 1 .. Len(A) : \A k \in 1 .. Len(A[a]) : A[a][k][2] # "panic",
+             <<"service discovery panicked", Ev.panics>>)
+     /\ Rule(l, "DiscoverExact", \A a \in 1 .. Len(A) : Exact(A[a]),
+             <<"a peer reported an instance nobody advertised (or one twice)", Ev.flavour,
+               {a \in 1 .. Len(A) : ~Exact(A[a])}>>)
+     /\ Rule(l, "E2EDiscovered", A # <<>> => \E a \in 1 .. Len(A) : Prompt(A[a]) /\ Stable(A[a]),
+             <<"running peers do not see each other, in any attempt", Ev.flavour>>)
+     \* the tokio flavour queues its goodbye and clears the store before the executor serves the queue: no goodbye
+     \* is sent (Discovery.tla, RemoveAsync / Neg_Discovery_asyncbye); nothing is demanded of it here
+     /\ Rule(l, "E2EGoodbye", (A # <<>> /\ Ev.flavour = "sync") => \E a \in 1 .. Len(A) : Goodbye(A[a]),
+             <<"a peer that said goodbye is still listed three seconds later, in every attempt", Ev.flavour>>)
+
 (* ApiTrace (C02, C08): an API history of the builder machine (Builder.tla) was replayed    *)
 (* on a real Packet; e.states[i] is the projection of the real packet after call i       *)
 TraceApi ==
@@ -643,7 +688,7 @@ Stateless ==
            \/ TraceNameNew \/ TraceLabelNew \/ TraceNameRel
            \/ TraceTxtSplit \/ TraceTxtAttrs \/ TraceTxtRaw \/ TraceTxtLong \/ TraceCStrNew
            \/ TraceDiscover \/ TraceEscape \/ TraceDatagram \/ TraceNetRun
-           \/ TraceApi \/ TraceSvcbApi \/ TraceValueCmp \/ TraceParse \/ TracePeek \/ TraceInspect \/ TraceSinkBuild \/ TraceRoundTrip \/ TraceReparse
+           \/ TraceApi \/ TraceE2E \/ TraceSvcbApi \/ TraceValueCmp \/ TraceParse \/ TracePeek \/ TraceInspect \/ TraceSinkBuild \/ TraceRoundTrip \/ TraceReparse
            \/ TraceCodeConv \/ TraceMnemonics \/ TraceMatchType \/ TraceMatchClass
 
 Next == /\ l <= Len(Rec)
